@@ -187,19 +187,17 @@ var rgb2x2 = []byte{255, 0, 0, 0, 255, 0, 0, 0, 255, 255, 255, 0}
 // imagesDoc: every name becomes the resource name of an image XObject (several per page).
 func imagesDoc(r *rand.Rand, names []string, perPage int) []byte {
 	pages := (len(names) + perPage - 1) / perPage
-	s := &skeleton{}
 	var imgs []Ref
 	build := func(i int) (Dict, string) {
 		xo := D()
 		content := ""
 		for k := i * perPage; k < (i+1)*perPage && k < len(names); k++ {
 			xo = append(xo, Entry{Key: Name(names[k]), Val: imgs[k]})
-			content += "q 10 0 0 10 " + fmt.Sprint(10*k) + " 0 cm " + string(EscapeName(Name(names[k]))) + " Do Q\n"
+			content += "q 10 0 0 10 " + fmt.Sprint(10*k) + " 0 cm " + contentName(names[k]) + " Do Q\n"
 		}
 		return D("XObject", xo), content
 	}
-	// images must exist before the pages reference them: allocate through a temporary skeleton
-	s = newSkeletonWith(pages, func(doc *Doc) {
+	s := newSkeletonWith(pages, func(doc *Doc) {
 		for k := range names {
 			data := append([]byte(nil), rgb2x2...)
 			data[0], data[1] = byte(k), byte(k>>8) // distinct images (the optimiser merges identical ones)
@@ -208,6 +206,25 @@ func imagesDoc(r *rand.Rand, names []string, perPage int) []byte {
 		}
 	}, build)
 	return s.bytes(r, "1.7")
+}
+
+// contentName writes a resource name inside a content stream. pdfcpu compares the RAW token of the content stream
+// with the DECODED key of the resource dictionary (it does not resolve #xx in content streams), and extracts only
+// resources a page uses; so every byte that may stand for itself in a name (anything but white space, delimiters
+// and '#') is written raw - the hostile name then reaches the extraction code - and only the rest as #xx.
+func contentName(s string) string {
+	var b []byte
+	b = append(b, '/')
+	for i := 0; i < len(s); i++ {
+		c := s[i]
+		switch c {
+		case 0, 9, 10, 12, 13, 32, '(', ')', '<', '>', '[', ']', '{', '}', '/', '%', '#':
+			b = append(b, fmt.Sprintf("#%02X", c)...)
+		default:
+			b = append(b, c)
+		}
+	}
+	return string(b)
 }
 
 func newSkeletonWith(n int, pre func(doc *Doc), page func(i int) (Dict, string)) *skeleton {
@@ -260,7 +277,7 @@ func fontsDoc(r *rand.Rand, names []string, fontFile []byte, resToo bool, subset
 		if resToo {
 			rn = Name(names[i])
 		}
-		return D("Font", Dict{{Key: rn, Val: fonts[i]}}), "BT " + string(EscapeName(rn)) + " 12 Tf (x) Tj ET\n"
+		return D("Font", Dict{{Key: rn, Val: fonts[i]}}), "BT " + contentName(string(rn)) + " 12 Tf (x) Tj ET\n"
 	})
 	return s.bytes(r, "1.7")
 }
